@@ -31,6 +31,9 @@ CLAIMS = {
     "C03": ("proof",
             "extent.complete: for every invertible cell, radius, centre and atom image, an image within the radius lies inside the cell bounds the real atoms_in_radius passes to slab — the real statements are executed symbolically up to the slab call and the argument is discharged in small steps (offset identity by certificate, extent = r|a*_i| from the sqrt axioms, Cauchy-Schwarz as Lagrange identity, integer floor/ceil step in linear arithmetic); frame obligations show all multi-centre queries use the same extent and accumulate it over centres; slab layout and ball bookkeeping on symbolic instances with an exact KD-tree model (selected <=> within radius, same index vector on every array). All query functions against brute-force periodic search on oblique generated crystals is the bounded stand-in.",
             "scipy cKDTree exactness assumed; floats as reals; unit-cell atom list from C01; multi-centre functions carried by frame obligations + bounded runs rather than their own VCs"),
+    "C01": ("other",
+            "P: block layout of apply_all_symops / ordered_symmetry_operations on a symbolic instance; the wrap statement of unit_cell_atoms proved to map every real coordinate into [0,1) by an integer shift; unit_cell_atoms executed on a symbolic 2-site x 2-operation instance under every coincidence pattern that is an equivalence relation (exact model of the sparse distance matrix): one mask on all arrays, least row of each class survives, merged occupancy = class sum, Cartesian = fractional.D. G: int32 range of generator codes. B: the real function against an exact rational orbit (general positions in and out of the cell, exact special positions with fractional occupancy) for 40 seeded settings (all 530 in the thorough tier). 'Every distinct image exactly once for every setting' combines C02 (group), the merge instance and the bounded runs, hence 'other'.",
+            "scipy sparse_distance_matrix exactness and row-major dok.items() order assumed (monitored by the bounded runs); floats as reals; instance-level (2x2) merge proof"),
 }
 
 NA_PENDING = "check not built yet in this session (see DESIGN.md section 8 build order)"
